@@ -28,6 +28,7 @@ import (
 	"os/signal"
 	"path/filepath"
 	"regexp"
+	"runtime"
 	"sort"
 	"strconv"
 	"strings"
@@ -193,6 +194,8 @@ func c02ParseChron(f []string, live *int) c02Chron {
 }
 
 func c02WorkerMain(script string) {
+	// strace counts injected syscalls per thread: keep every file operation on one OS thread
+	runtime.LockOSThread()
 	// SIGXFSZ must not kill the worker when RLIMIT_FSIZE is used for short writes
 	c02IgnoreXFSZ()
 	c02Quiet()
@@ -201,7 +204,7 @@ func c02WorkerMain(script string) {
 		fmt.Fprintln(os.Stderr, "worker:", err)
 		os.Exit(3)
 	}
-	out := bufio.NewWriter(os.Stdout)
+	out := bufio.NewWriterSize(os.Stdout, 1<<24)
 	defer out.Flush()
 	sc := bufio.NewScanner(in)
 	sc.Buffer(make([]byte, 1<<20), 1<<28)
@@ -285,12 +288,23 @@ func c02WorkerMain(script string) {
 				// RLIMIT_FSIZE soft limit (0 = unlimited again)
 				lim, _ := strconv.ParseUint(f[1], 10, 64)
 				c02SetFsize(lim)
+			case "fsizeplus":
+				// the main file may grow by K more bytes (0: the next append fails outright)
+				k, _ := strconv.ParseUint(f[1], 10, 64)
+				var cur uint64
+				if st, err := os.Stat(filepath.Join(dir, "sw.hyd")); err == nil {
+					cur = uint64(st.Size())
+				}
+				if cur+k == 0 {
+					k = 1
+				}
+				c02SetFsize(cur + k)
 			default:
 				res = "bad-cmd"
 			}
 		}()
+		// results are flushed at the very end: the only write syscalls in between are storage writes
 		fmt.Fprintf(out, "r %d %s\n", n, res)
-		out.Flush()
 		n++
 	}
 	c02Mark(n)
@@ -1009,11 +1023,12 @@ type c02CmdOut struct {
 }
 
 type c02CaseOut struct {
-	In   c02CaseIn
-	Spec c02Chron
-	Cmds []c02CmdOut
-	Cl   *c02Classifier
-	Err  string
+	In     c02CaseIn
+	Spec   c02Chron
+	Cmds   []c02CmdOut
+	Cl     *c02Classifier
+	Err    string
+	Faulty bool // emit the results of every region's operations (`res` lines) for the fault-aware model
 }
 
 // c02TraceCases runs every case in one traced worker process.
@@ -1098,6 +1113,11 @@ func c02TraceCases(cases []c02CaseIn, extraStrace []string) ([]c02CaseOut, error
 		co.Sys = append(co.Sys, s)
 	}
 	for ci := range outs {
+		for j := range outs[ci].Cmds {
+			outs[ci].Cmds[j].Sys = c02MergeShort(outs[ci].Cmds[j].Sys)
+		}
+	}
+	for ci := range outs {
 		// classify over the whole case so block ids are shared
 		var all []c02Sys
 		for _, c := range outs[ci].Cmds {
@@ -1113,6 +1133,23 @@ func c02TraceCases(cases []c02CaseIn, extraStrace []string) ([]c02CaseOut, error
 		}
 	}
 	return outs, err
+}
+
+// Go's File.Write retries a short write; the retry fails (EFBIG/ENOSPC).  The pair is one logical
+// write with result `short n`.
+func c02MergeShort(sys []c02Sys) []c02Sys {
+	var out []c02Sys
+	for i := 0; i < len(sys); i++ {
+		s := sys[i]
+		if s.Op == "write" && s.Res == "short" && i+1 < len(sys) {
+			n := sys[i+1]
+			if n.Op == "write" && n.Res == "err" && n.Path == s.Path && n.Off == s.Off+int64(len(s.Data)) && n.Want == s.Want-len(s.Data) {
+				i++
+			}
+		}
+		out = append(out, s)
+	}
+	return out
 }
 
 func c02LogLine(verb string, idx int, s c02Sys) string {
@@ -1283,6 +1320,17 @@ func c02EmitCase(w *bufio.Writer, co c02CaseOut, imgFor func(ki int, c c02CmdOut
 		}
 		compacted := c02HasTempCreateOrWrite(c.Sys)
 		order := c02TempOrder(co.Cl, c.Sys)
+		if co.Faulty && len(c.Sys) > 0 {
+			var rs []string
+			for _, s := range c.Sys {
+				r := s.Res
+				if r == "short" {
+					r = "short:" + strconv.Itoa(len(s.Data))
+				}
+				rs = append(rs, r)
+			}
+			fmt.Fprintln(w, "res "+strings.Join(rs, ","))
+		}
 		switch f[0] {
 		case "chron":
 			fmt.Fprintln(w, "act new")
@@ -1515,7 +1563,11 @@ func c02RunOps(in *bufio.Scanner, w *bufio.Writer, probe bool) {
 			s := c02ParseLogLine(f)
 			r.ops = append(r.ops, s)
 			to := f[4]
-			fmt.Fprintf(w, "%s %s %s %s %s %s %s\n", s.Op, s.Path, to, f[5], f[6], r.kindText(s.Kind), s.Res)
+			res := s.Res
+			if res == "short" {
+				res = "short:" + strconv.Itoa(len(s.Data))
+			}
+			fmt.Fprintf(w, "%s %s %s %s %s %s %s\n", s.Op, s.Path, to, f[5], f[6], r.kindText(s.Kind), res)
 		case "img":
 			i, _ := strconv.Atoi(f[1])
 			j, _ := strconv.Atoi(f[2])
